@@ -161,10 +161,11 @@ static inline bool raw_decode(const unsigned char *p, size_t n, std::vector<RawH
 		long bitpix = 0, naxis = 0;
 		if (!card_long(h, "BITPIX", bitpix) || !card_long(h, "NAXIS", naxis) || naxis < 0 || naxis > 999) { if (why) *why = "no BITPIX/NAXIS"; return false; }
 		size_t cnt = naxis ? 1 : 0;
-		for (long a = 1; a <= naxis; a++) { long v; if (!card_long(h, "NAXIS" + std::to_string(a), v) || v < 0) { if (why) *why = "bad NAXISn"; return false; } cnt *= (size_t)v; }
+		for (long a = 1; a <= naxis; a++) { long v; if (!card_long(h, "NAXIS" + std::to_string(a), v) || v < 0) { if (why) *why = "bad NAXISn"; return false; } if (v && cnt > ((size_t)1 << 40) / (size_t)v) { if (why) *why = "truncated data"; hdus.push_back(h); return false; } cnt *= (size_t)v; }
 		long pc = 0, gc = 1; card_long(h, "PCOUNT", pc); card_long(h, "GCOUNT", gc);
-		size_t bytes = (size_t)(std::labs(bitpix) / 8) * gc * (pc + cnt);
-		if (pos + bytes > n) { if (why) *why = "truncated data"; hdus.push_back(h); return false; }
+		if (pc < 0 || gc < 0 || pc > ((long)1 << 40) || gc > ((long)1 << 20) || std::labs(bitpix) > 64) { if (why) *why = "bad PCOUNT/GCOUNT/BITPIX"; return false; }
+		size_t bytes = (size_t)(std::labs(bitpix) / 8) * (size_t)gc * ((size_t)pc + cnt); // every factor is bounded above: no wrap-around
+		if (bytes > n || pos > n - bytes) { if (why) *why = "truncated data"; hdus.push_back(h); return false; }
 		h.data.assign(p + pos, p + pos + bytes);
 		pos += (bytes + 2879) / 2880 * 2880;
 		hdus.push_back(h);
